@@ -184,17 +184,39 @@ pub fn run(o: &Opts) -> i32 {
     let exe = std::env::current_exe().unwrap();
     let mut start = 0usize;
     let mut aborts = 0;
+    let mut timeouts = 0;
     while start < ncases {
-        let status = std::process::Command::new(&exe)
+        let mut child = std::process::Command::new(&exe)
             .args(["conn-child", "--cases", &cases_path, "--out", &out, "--root", &root, "--start", &start.to_string(),
                    "--obs", o.get("obs").unwrap_or("head")])
             .stdout(std::process::Stdio::null())
             .stderr(std::process::Stdio::null())
-            .status()
+            .spawn()
             .expect("spawn child");
+        // watchdog: a child that records nothing for STALL seconds is stuck inside one connection
+        const STALL: u64 = 45;
+        let mut last_len = 0u64;
+        let mut last_change = std::time::Instant::now();
+        let mut timed_out = false;
+        let status = loop {
+            if let Some(st) = child.try_wait().expect("wait child") {
+                break st;
+            }
+            let len = std::fs::metadata(&out).map(|m| m.len()).unwrap_or(0);
+            if len != last_len {
+                last_len = len;
+                last_change = std::time::Instant::now();
+            } else if last_change.elapsed().as_secs() >= STALL {
+                let _ = child.kill();
+                timed_out = true;
+                break child.wait().expect("wait child");
+            }
+            std::thread::sleep(std::time::Duration::from_millis(20));
+        };
         if status.success() {
             break;
         }
+        let hang = timed_out || status.code() == Some(97);
         // find the case that was running: the last Begin without an End
         let f = std::fs::File::open(&out).unwrap();
         let mut last_begin: Option<usize> = None;
@@ -222,10 +244,17 @@ pub fn run(o: &Opts) -> i32 {
         let sig = status.signal().unwrap_or(0);
         let mut f = std::fs::OpenOptions::new().append(true).open(&out).unwrap();
         // a partially written last line would break the trace: terminate it defensively
-        let v = json!({"ev":"End","i":crashed,"outcome":"abort","signal":sig,"code":status.code().unwrap_or(-1),
+        let v = json!({"ev":"End","i":crashed,"outcome":if hang { "hang" } else { "abort" },"signal":sig,"code":status.code().unwrap_or(-1),
                        "r":{"raw_len":0,"head_ok":false,"status":0,"phrase":"","hs":[],"body_len":0,"hi":[],"outcome":"abort"}});
         writeln!(f, "{}", v).unwrap();
         aborts += 1;
+        if timed_out {
+            timeouts += 1;
+            if timeouts >= 3 {
+                eprintln!("conn: stopped after {} stalled connections at case {}", timeouts, crashed);
+                return 0; // the recorded trace already carries three unanswered connections
+            }
+        }
         start = crashed + 1;
         if aborts > 200 {
             eprintln!("too many aborts");
